@@ -255,10 +255,15 @@ def io_covered(qt, m_in):
 def gen_cases(rng, n):
   ship = gr.shipped()
   for k in range(n):
-    mb, info = gg.gen_model(rng, max_ops=rng.choice([3, 5, 8, 10]))
+    fan = rng.choice([3, 3, 4]) if k % 9 == 4 else 0
+    mb, info = gg.gen_model(rng, max_ops=rng.choice([3, 5, 8, 10]), fanout=fan)
     for trial in range(2):
       qt = quantizer.Quantizer(bytearray(mb))
-      if trial == 0 and rng.random() < 0.5:
+      if fan and trial == 0:
+        desc = gr.apply_rules(qt, gr.fanout_rules(rng, mb))
+        if not desc:
+          continue
+      elif trial == 0 and rng.random() < 0.5:
         name = rng.choice(gr.DEFAULT_SHIPPED)
         qt.load_quantization_recipe(copy.deepcopy(ship[name]))
         desc = name
@@ -320,7 +325,7 @@ def main():
   seed = int(os.environ.get('VERIF_SEED', '0'))
   rng = random.Random(seed * 7919 + 1)
   t0 = time.time()
-  n_models = 900 if tier == 'thorough' else 90
+  n_models = 3000 if tier == 'thorough' else 220
   cases = []       # (coq literal, ctx, impl insts J or err, m_in, m_out or err, desc)
   viol = []
   dist = collections.Counter()
